@@ -39,14 +39,12 @@ def showOut : Out → String
   | .rows rs => "rows:" ++ ";".intercalate (rs.map showRow)
   | .valueError => "err:ValueError"
 
-def showState (s : State) : String :=
-  let l := match s.run with
-    | none => "norun"
-    | some (_, none) => "none"
-    | some (_, some l) => showTime l
-  let tags := if s.tags.isEmpty then "-" else
-    ";".intercalate (s.tags.map (fun p => s!"{encodeStr p.1}|{p.2.value}|{showTime p.2.time}"))
-  s!"L={l}\ttags={tags}"
+def parsePolicy : List String → Option Policy
+  | ["policy", k, st] =>
+    match parseBool k, parseBool st with
+    | some k, some st => some { keepNewer := k, strict := st }
+    | _, _ => none
+  | _ => none
 
 def parseOp : List String → Option (Bool × Op)
   | ["uod", names, iv] =>
@@ -55,6 +53,7 @@ def parseOp : List String → Option (Bool × Op)
     | _, _ => none
   | ["newrun"] => some (false, .newRun)
   | ["stoprun"] => some (false, .stopRun)
+  | ["reconnect"] => some (false, .reconnect)
   | ["tags", mr, ups] =>
     match parseMsgRun mr, parseUpdates ups with
     | some mr, some ups => some (false, .tags mr ups)
@@ -68,15 +67,22 @@ def parseOp : List String → Option (Bool × Op)
 /-- ops:  `uod <names ;-separated | -> <interval in 1/8 s | inf>`   UodInfoMsg (readings, data_log_interval_seconds)
           `newrun`                                                    RunStartedMsg with a fresh run id
           `stoprun`                                                   RunStoppedMsg of the active run
+          `reconnect`                                                 engine_disconnected, then RegisterEngineMsg
+          `policy <keepNewer 0|1> <strict 0|1>`                       (first line of a case) which variant of the two
+                                                                      incidental choices to run; answer `ok`; default = as is
           `tags <run ordinal | none> <updates | ->`                   TagsUpdatedMsg; update = `<name>|<value token>|<time in 1/8 s>`
           `tagsm …`                                                   the same with the mutant (self-test only)
-    answer: rows written by the op (`run|name|time|value`), latest_persisted_tick_time, the tag map -/
+    answer: the rows written by the op (`run|name|time|value`) — what C29 speaks about; the intermediate state
+    (latest_persisted_tick_time, tag map) is deliberately not part of the observation -/
 def step (s : State) (line : String) : State × String :=
-  match parseOp (fields line) with
-  | some (mutant, op) =>
-    let (s', o) := if mutant then stepMutant s op else OPM.PlotPersist.step s op
-    (s', showOut o ++ "\t" ++ showState s')
-  | none => (s, "bad-op")
+  match parsePolicy (fields line) with
+  | some pol => (initWith pol, "ok")
+  | none =>
+    match parseOp (fields line) with
+    | some (mutant, op) =>
+      let (s', o) := if mutant then stepMutant s op else OPM.PlotPersist.step s op
+      (s', showOut o)
+    | none => (s, "bad-op")
 
 end Driver.PlotPersist
 
